@@ -165,4 +165,18 @@ PROPS = {
              'distinct = hash of the configuration; every case is non-trivial.',
         exhaustive=dict(quick=False, thorough=False),
         assumptions=['reference port semantics harness/c14.cpp']),
+    'C03': dict(
+        level_text='Runtime monitoring by interposition: the harness executable defines malloc/calloc/realloc/free/memalign/aligned_alloc/posix_memalign, operator new/delete (all forms) and pthread_mutex_lock/trylock/timedlock, pthread_rwlock_rd/wrlock, pthread_spin_lock, pthread_cond_wait, sem_wait itself (forwarding to glibc); a thread-local flag marks realtime sections and every intercepted call inside one is a violation with its backtrace. Inside sections run: message construction (argument array, hand-built va_list incl. 33..48 value arguments, true varargs, NULL-size query, too-small buffer), measuring/validating/reading (all accessors, iterator), bundle build/read, pattern matching, Ports::dispatch with and without location buffer on generated port trees (hashed tables incl. names >= 16 characters, enumerated tables, tables whose hash generation failed, nested sub-trees, default handlers; matching, non-matching, oversized and every-type-tag messages), dispatch through the library\'s own macro callbacks (rParam*, rOption incl. symbols, rToggle, rString, rArray*, rRecur/rRecurp/rRecurs/rRecursp, null pointer) with the default RtData::reply/broadcast forwarding, and ThreadLink write/writeArray/raw_write/hasNext/read/peak/read_lookahead on empty, full and wrapping rings. The monitor self-tests that it sees malloc, operator new and pthread_mutex_lock before every run.',
+        level_note='Only intercepted symbols are seen (glibc-internal stdio locks are not pthread_mutex_* calls through the PLT). Plain (non-sanitizer) build because AddressSanitizer owns the allocator. Setup (port tables, ThreadLink, message generation) happens outside the sections.',
+        technique='allocator / lock interposition monitor with realtime-section flag (plain build)',
+        stages=[dict(harness='c03', variant='plain', quick=2400, thorough=200000, ldextra=['-rdynamic'],
+                     need=['rt.build_amessage', 'rt.build_vmessage', 'rt.build_message_varargs', 'rt.size_query', 'rt.build_does_not_fit', 'rt.measure_and_read', 'rt.match',
+                           'rt.bundle_build', 'rt.bundle_read', 'rt.tree_dispatch_loc_hit', 'rt.tree_dispatch_loc_miss', 'rt.tree_dispatch_noloc_hit', 'rt.tree_dispatch_noloc_miss',
+                           'rt.tree_dispatch_default_handler', 'rt.sugar_dispatch_loc_hit', 'rt.sugar_dispatch_loc_miss', 'rt.sugar_dispatch_noloc_hit', 'rt.sugar_dispatch_noloc_miss',
+                           'rt.threadlink_write', 'rt.threadlink_writeArray', 'rt.threadlink_raw_write', 'rt.threadlink_read', 'rt.threadlink_read_lookahead', 'rt.threadlink_hasNext_true',
+                           'rt.threadlink_hasNext_false', 'tables.hashed', 'tables.enumerated', 'tables.hash_failed', 'tables.with_default', 'codec.more_than_32_values'])],
+        rule='case = one generated tree with ~120 messages (2 of 8), one batch of 24 messages through the macro zoo (2 of 8), one ThreadLink history (1 of 8) or one message through all codec operations (3 of 8); '
+             'distinct = hash of the rendered case; every case is non-trivial. Buckets rt.* count realtime sections that were executed and found clean.',
+        exhaustive=dict(quick=False, thorough=False),
+        assumptions=['only the interposed symbols are observed']),
 }
